@@ -132,6 +132,36 @@ type vcExpect struct {
 	ies               []int // id, criticality pairs
 }
 
+// vcCheckIds: message class, procedure code and the two UE identifiers found by the walker are the
+// caller's (for the wrappers no procedure of the emulator uses, the statement asks no more).
+func vcCheckIds(name string, b []byte, class, proc int, amf, ran int64) {
+	p, err := ngap38413.Walk(b)
+	if err != nil {
+		panic(vc.Failure{Kind: "bounded", Label: fmt.Sprintf("%s: reference walker rejects % x: %v", name, b, err)})
+	}
+	if p.Class != class || p.Procedure != proc {
+		panic(vc.Failure{Kind: "bounded", Label: fmt.Sprintf("%s: class/procedure %d/%d, TS 38.413 says %d/%d", name, p.Class, p.Procedure, class, proc)})
+	}
+	sawAmf, sawRan := false, false
+	for _, ie := range p.IEs {
+		switch ie.ID {
+		case ngap38413.IEAMFUENGAPID, ngap38413.IESourceAMFUENGAPID:
+			sawAmf = true
+			if v, err := ngap38413.DecodeLargeInteger(ie.Value, 5); err != nil || v != amf {
+				panic(vc.Failure{Kind: "bounded", Label: fmt.Sprintf("%s: AMF-UE-NGAP-ID on the wire is %d (%v), the caller gave %d", name, v, err, amf)})
+			}
+		case ngap38413.IERANUENGAPID:
+			sawRan = true
+			if v, err := ngap38413.DecodeLargeInteger(ie.Value, 4); err != nil || v != ran {
+				panic(vc.Failure{Kind: "bounded", Label: fmt.Sprintf("%s: RAN-UE-NGAP-ID on the wire is %d (%v), the caller gave %d", name, v, err, ran)})
+			}
+		}
+	}
+	if !sawAmf || !sawRan {
+		panic(vc.Failure{Kind: "bounded", Label: fmt.Sprintf("%s: a UE identifier IE is missing", name)})
+	}
+}
+
 func vcCheckWalk(name string, b []byte, e vcExpect, amf, ran int64, nas []byte) {
 	p, err := ngap38413.Walk(b)
 	if err != nil {
@@ -148,7 +178,7 @@ func vcCheckWalk(name string, b []byte, e vcExpect, amf, ran int64, nas []byte) 
 			panic(vc.Failure{Kind: "bounded", Label: fmt.Sprintf("%s: IE %d is id %d criticality %d, expected id %d criticality %d", name, i, ie.ID, ie.Criticality, e.ies[2*i], e.ies[2*i+1])})
 		}
 		switch ie.ID {
-		case ngap38413.IEAMFUENGAPID:
+		case ngap38413.IEAMFUENGAPID, ngap38413.IESourceAMFUENGAPID:
 			if v, err := ngap38413.DecodeLargeInteger(ie.Value, 5); err != nil || v != amf {
 				panic(vc.Failure{Kind: "bounded", Label: fmt.Sprintf("%s: AMF-UE-NGAP-ID on the wire is %d (%v), the caller gave %d", name, v, err, amf)})
 			}
@@ -170,7 +200,7 @@ func vcCheckWalk(name string, b []byte, e vcExpect, amf, ran int64, nas []byte) 
 }
 
 // prop: C13
-// bound: NGSetupRequest for every gNB id length 22..32 x 4 bit patterns against the X.691 encoding of GlobalRANNodeID; the 8 message constructors x AMF-UE-NGAP-ID in {0,1,255,256,65535,65536,2^32,2^40-1} x RAN-UE-NGAP-ID in {0,1,2^32-1} x NAS-PDU lengths {1,100,127,128,300,2000}: an independent walker (TS 38.413 / X.691) finds class, procedure code, criticality, the IE ids and criticalities of clause 9.2 and the caller's identifiers and NAS-PDU; identifiers just outside their range (-1, 2^40, 2^32) are refused with an error
+// bound: NGSetupRequest for every gNB id length 22..32 x 4 bit patterns against the X.691 encoding of GlobalRANNodeID; the 14 build-and-encode wrappers (8 on the emulator's path, 6 others) x AMF-UE-NGAP-ID in {0,1,255,256,65535,65536,2^32,2^40-1} x RAN-UE-NGAP-ID in {0,1,2^32-1} x NAS-PDU lengths {1,100,127,128,300,2000}: an independent walker (TS 38.413 / X.691) finds class, procedure code, criticality, the IE ids and criticalities of clause 9.2 and the caller's identifiers and NAS-PDU; identifiers just outside their range (-1, 2^40, 2^32) are refused with an error
 func vcBounded_wrappersOnTheWire() {
 	R, I := ngap38413.Reject, ngap38413.Ignore
 	nasLens := []int{1, 100, 127, 128, 300, 2000}
@@ -209,6 +239,37 @@ func vcBounded_wrappersOnTheWire() {
 				panic(vc.Failure{Kind: "bounded", Label: fmt.Sprintf("InitialContextSetupResponseForServiceRequest refused: %v", err)})
 			}
 			vcCheckWalk("InitialContextSetupResponseForServiceRequest", b, vcExpect{1, ngap38413.ProcInitialContextSetup, R, []int{ngap38413.IEAMFUENGAPID, I, ngap38413.IERANUENGAPID, I, ngap38413.IEPDUSessionResourceSetupListCxtRes, I}}, amf, ran, nil)
+			// the wrappers of tglib that no procedure of the emulator calls (handover, path switch, paging, release request)
+			b, err = GetUEContextReleaseRequest(amf, ran, []int64{5})
+			if err != nil {
+				panic(vc.Failure{Kind: "bounded", Label: fmt.Sprintf("UEContextReleaseRequest refused: %v", err)})
+			}
+			vcCheckIds("UEContextReleaseRequest", b, 0, ngap38413.ProcUEContextReleaseRequest, amf, ran)
+			b, err = GetPathSwitchRequest(amf, ran)
+			if err != nil {
+				panic(vc.Failure{Kind: "bounded", Label: fmt.Sprintf("PathSwitchRequest refused: %v", err)})
+			}
+			vcCheckIds("PathSwitchRequest", b, 0, ngap38413.ProcPathSwitchRequest, amf, ran)
+			b, err = GetHandoverRequired(amf, ran, []byte{0x00, 0x01, 0x02}, []byte{0x01, 0x20})
+			if err != nil {
+				panic(vc.Failure{Kind: "bounded", Label: fmt.Sprintf("HandoverRequired refused: %v", err)})
+			}
+			vcCheckIds("HandoverRequired", b, 0, ngap38413.ProcHandoverPreparation, amf, ran)
+			b, err = GetHandoverRequestAcknowledge(amf, ran)
+			if err != nil {
+				panic(vc.Failure{Kind: "bounded", Label: fmt.Sprintf("HandoverRequestAcknowledge refused: %v", err)})
+			}
+			vcCheckIds("HandoverRequestAcknowledge", b, 1, ngap38413.ProcHandoverResourceAllocation, amf, ran)
+			b, err = GetHandoverNotify(amf, ran)
+			if err != nil {
+				panic(vc.Failure{Kind: "bounded", Label: fmt.Sprintf("HandoverNotify refused: %v", err)})
+			}
+			vcCheckIds("HandoverNotify", b, 0, ngap38413.ProcHandoverNotification, amf, ran)
+			b, err = GetPDUSessionResourceSetupResponseForPaging(amf, ran, "10.200.200.1")
+			if err != nil {
+				panic(vc.Failure{Kind: "bounded", Label: fmt.Sprintf("PDUSessionResourceSetupResponseForPaging refused: %v", err)})
+			}
+			vcCheckIds("PDUSessionResourceSetupResponseForPaging", b, 1, ngap38413.ProcPDUSessionResourceSetup, amf, ran)
 		}
 	}
 	for _, ran := range []int64{0, 7, 4294967295} {
